@@ -51,13 +51,15 @@ def build_sky(m, wcs, cx, cy, unit_variant=0, rframe=None):
     mixed = (unit_variant // 2) % 2          # every parameter in its own unit (inner radius in arcmin, outer in arcsec, ...)
     q = lambda v, j=0: ((v * BASE_ARCSEC / U) * u.arcsec).to(units[(unit_variant + j * mixed) % 3])  # noqa: sizes handed over in different units
     k = m['k']
+    # the stated angle in any angular unit (deg, rad, hour angle, arcmin)
+    ang_ = lambda d: (ang(d) - delta).to([u.deg, u.rad, u.hourangle, u.arcmin][(unit_variant // 5) % 4])  # noqa
     if k == 'circle':
         return R.CircleSkyRegion(c, q(m['r']))
     if k in ('ellipse', 'rectangle'):
-        return getattr(R, SKY[k])(c, q(m['w']), q(m['h'], 1), angle=ang(m['d']) - delta)
+        return getattr(R, SKY[k])(c, q(m['w']), q(m['h'], 1), angle=ang_(m['d']))
     if k == 'cannulus':
         return R.CircleAnnulusSkyRegion(c, q(m['r1']), q(m['r2'], 1))
-    return getattr(R, SKY[k])(c, q(m['w1']), q(m['w2'], 1), q(m['h1'], 2), q(m['h2'], 3), angle=ang(m['d']) - delta)
+    return getattr(R, SKY[k])(c, q(m['w1']), q(m['w2'], 1), q(m['h1'], 2), q(m['h2'], 3), angle=ang_(m['d']))
 
 
 def check(ctx, st, idx, rnd, family, var=0):
